@@ -669,6 +669,19 @@ fn run_synthetic(ctx: &mut Ctx, stats: &mut Stats, item: &mut usize) {
     let thorough = ctx.tier.is_thorough();
     let debug_sizes: Option<Vec<u32>> = std::env::var("C03_SIZES").ok().map(|s| s.split(',').filter_map(|x| x.parse().ok()).collect());
     let mut features: BTreeMap<String, u64> = BTreeMap::new();
+    // the fixed probe font (known divergences under stable signatures): one work item
+    let mine = ctx.mine(*item);
+    *item += 1;
+    if mine {
+        match vf_core::guard(synth::probe_font) {
+            Ok(pf) => {
+                ctx.count("synthetic_probe_fonts", 1);
+                let ppems = pf.ppems_quick.clone();
+                run_synth_font(ctx, stats, &pf, &ppems, None);
+            }
+            Err(p) => ctx.inconclusive(format!("probe font generator panicked: {}:{} {}", p.file, p.line, p.msg)),
+        }
+    }
     for index in 0..n_fonts {
         let mine = ctx.mine(*item);
         *item += 1;
@@ -835,7 +848,8 @@ fn replay_synthetic(ctx: &mut Ctx, d: &Value, bytes: Option<&[u8]>) {
     let index = d["synthetic"]["index"].as_u64().unwrap_or(0) as u32;
     let gid = d["gid"].as_u64().unwrap_or(0) as u32;
     let engine = d["engine"].as_str().unwrap_or("none").to_string();
-    let mut sf = match vf_core::guard(|| synth::generate(seed, index)) {
+    let is_probe = d["synthetic"]["probe"].as_bool().unwrap_or(false);
+    let mut sf = match vf_core::guard(|| if is_probe { synth::probe_font() } else { synth::generate(seed, index) }) {
         Ok(f) => f,
         Err(p) => {
             ctx.inconclusive(format!("replay: generator panicked: {}", p.msg));
